@@ -103,7 +103,8 @@ def composite_codec_get_coded_const_prefix(codec: CompositeCodec,
     encode_state = EncodeState(coded_message=bytearray(), triggering_request=request_prefix)
 
     for param in codec.parameters:
-        if (isinstance(param, MatchingRequestParameter) and param.request_byte_position < len(request_prefix)) or \
+        if (isinstance(param, MatchingRequestParameter) and
+                param.request_byte_position + param.byte_length <= len(request_prefix)) or \
             isinstance(param, (CodedConstParameter, PhysicalConstantParameter)):
             param.encode_into_pdu(physical_value=None, encode_state=encode_state)
         else:
